@@ -52,7 +52,7 @@ def main():
         ],
         "checks": checks,
         "not_applicable": na,
-        "notes": "All verdicts are computed by TLC from the TLA+ specifications; the harness only executes and records. Exit codes: 0 ok, 1 VIOLATION, 2 tool error.",
+        "notes": "All verdicts are computed by TLC from the TLA+ specifications; the harness only executes and records. Exit codes: 0 ok, 1 VIOLATION, 2 tool error. C19 additionally runs tlapm on spec/SettingsProofs.tla (unbounded WriteOnce / RunnerOwnsCell); an undischarged obligation is a tool error. Genuine defects repaired in /repo are listed as fixed in known_findings.json and in DESIGN.md 8.3; seeded changes and which checks catch them: DESIGN.md 8.6 and seeded/.",
     }
     (ROOT / "MANIFEST.json").write_text(json.dumps(m, indent=1) + "\n")
     findings = []
